@@ -132,7 +132,13 @@ def classify(res, g):
                 hl = t0["text"][t0["highlight_start"] - 1:t0["highlight_end"] - 1].strip()
                 if len(prim[0]["text"]) > 1:
                     hl += " …"
-            label = "%s/safety.%s[%s]" % (fn, kind, re.sub(r"\s+", " ", hl)[:80])
+            # a failing Verus `assert` is a proof step written in the overlay (run-time assert!s are vassert call
+            # preconditions), so it is not a panic obligation
+            grp = "safety"
+            if kind in ("assert", "ensures", "invariant-init", "invariant-step", "decreases") or \
+                    (kind == "call-precondition" and re.match(r"(lemma|axiom)_", hl)):
+                grp = "proof"
+            label = "%s/%s.%s[%s]" % (fn, grp, kind, re.sub(r"\s+", " ", hl)[:80])
         fails.append({"label": label, "fn": fn, "kind": kind, "line": pline, "text": text,
                       "message": msg, "rendered": d.get("rendered", "")})
     return compile_errors, fails
@@ -205,8 +211,10 @@ def vacuity_variant(g):
 def check_unit(unit, tier="quick", vacuity=True):
     """returns dict with everything the driver needs"""
     g = generate(unit)
-    os.makedirs(os.path.join(BUILD, "gen"), exist_ok=True)
-    path = os.path.join(BUILD, "gen", unit + ".rs")
+    # one directory per property run, so that checks of properties sharing a unit can run concurrently
+    gen_dir = os.path.join(BUILD, "gen", os.environ.get("VERIF_GEN_SUBDIR", ""))
+    os.makedirs(gen_dir, exist_ok=True)
+    path = os.path.join(gen_dir, unit + ".rs")
     with open(path, "w") as f:
         f.write(g.text())
     res = run_verus(path)
@@ -230,7 +238,7 @@ def check_unit(unit, tier="quick", vacuity=True):
     vac = {"probed": 0, "vacuous": []}
     if vacuity:
         vtext, marks = vacuity_variant(g)
-        vpath = os.path.join(BUILD, "gen", unit + "__vac.rs")
+        vpath = os.path.join(gen_dir, unit + "__vac.rs")
         with open(vpath, "w") as f:
             f.write(vtext)
         vres = run_verus(vpath)
